@@ -283,9 +283,35 @@ def _load(xml, via, tag):
 HOW_OF = {"string": "into", "file": "into", "ctor": "ctor"}
 
 
+def perm_of(kind, n):
+    """1-based order in which the n TextRegion elements are handed to the import"""
+    ident = list(range(1, n + 1))
+    if kind == "rev":
+        return ident[::-1]
+    if kind == "rot":
+        return ident[1:] + ident[:1]
+    return ident
+
+
+def permute_xml(xml, pm):
+    """what another tool may do between the two calls: the same document with its TextRegion elements re-ordered"""
+    if pm == sorted(pm):
+        return xml
+    root = ET.fromstring(xml.encode("utf-8"))
+    ns = root.tag[1:].partition("}")[0]
+    pg = root.find("{%s}Page" % ns)
+    regs = pg.findall("{%s}TextRegion" % ns)
+    for r in regs:
+        pg.remove(r)
+    for i in pm:
+        pg.append(regs[i - 1])
+    return ET.tostring(root, encoding="utf-8", xml_declaration=True).decode("utf-8")
+
+
 def run_case(case):
-    """case = {"page": abstract page, "v1": 1|2, "v2": 1|2, "via1": .., "via2": .., "tables": {...}}
-    via in {"string", "file", "ctor"}: the API variant used for the export/load pair."""
+    """case = {"page": abstract page, "v1": 1|2, "v2": 1|2, "via1": .., "via2": .., "perm1": "id"|"rev"|"rot", "tables": {...}}
+    via in {"string", "file", "ctor"}: the API variant used for the export/load pair; perm1: re-ordering of the TextRegion
+    elements of the first document before it is loaded."""
     tables = case.get("tables") or default_tables()
     tr = {"page0": case["page"], "events": [], "outcome": "ok", "where": 0}
     try:
@@ -302,11 +328,19 @@ def run_case(case):
             tr["where"] = k + 1
             if act == "Export":
                 xml = _export(page, ver, "string" if via == "string" else "file", "e%d" % k)
-                tr["events"].append({"a": "Export", "v": ver, "via": via, "how": "none", "doc": proj_doc(xml, tables),
+                tr["events"].append({"a": "Export", "v": ver, "via": via, "how": "none", "pm": [], "doc": proj_doc(xml, tables),
                                      "hash": doc_hash(xml), "page": proj_page(page, tables)})
             else:
-                page = _load(xml, via, "l%d" % k)
-                tr["events"].append({"a": "Load", "v": 0, "via": via, "how": HOW_OF[via], "doc": EMPTY_DOC, "hash": 0,
+                written = tr["events"][-1]["doc"]
+                pm = perm_of(case.get("perm1", "id") if k == 1 else "id", len(written["regions"]))
+                given = permute_xml(xml, pm)
+                if pm != sorted(pm):
+                    want = dict(written, regions=[written["regions"][i - 1] for i in pm])
+                    if proj_doc(given, tables) != want:
+                        tr["outcome"] = "harness:permute-mismatch"
+                        return tr
+                page = _load(given, via, "l%d" % k)
+                tr["events"].append({"a": "Load", "v": 0, "via": via, "how": HOW_OF[via], "pm": pm, "doc": EMPTY_DOC, "hash": 0,
                                      "page": proj_page(page, tables)})
     except Exception as ex:     # any failure of the real code is part of the observation
         tr["outcome"] = "exception:" + type(ex).__name__
